@@ -473,10 +473,80 @@ def _next_timer_ms(loop, t):
     return int(round(min(h._when for h in timers) * 1000))
 
 
+# ---------------------------------------------------------------------------------------------------------------------
+# directed scenarios (values of the lifetime and of the moment the caller awaits that the history alphabet does not move)
+
+SCENARIOS = ('lifetime0-nodata', 'lifetime0-data-10ms-later', 'awaited-late-data-came-in-time', 'awaited-late-nothing-came')
+
+
+async def _scenario(rig: al.Rig, front: str, which: str, out: list):
+    loop = rig.loop
+    await rig.start()
+    pfx = f'C03:{front}:'
+    if front == 'v2':
+        async def validator(name, sig, ctx):
+            return types.ValidResult.PASS
+    else:
+        async def validator(name, sig):
+            return True
+    name = enc.Name.normalize('/a/b')
+    wire = data_wires()[0]
+    lifetime = 0 if which.startswith('lifetime0') else LIFETIME
+    if front == 'v2':
+        coro = rig.app.express(name, validator, lifetime=lifetime, nonce=0x0a0b0c0d)
+    else:
+        coro = rig.app.express_interest(name, validator=validator, lifetime=lifetime, nonce=0x0a0b0c0d)
+    rig.take_sent()
+    t0 = loop.now_ms()
+
+    async def outcome(aw):
+        try:
+            res = await aw
+            return 'data', (res[1] if front == 'v2' else res[2])
+        except BaseException as e:  # noqa - classified below
+            return al.classify(e)
+    if which.startswith('lifetime0'):
+        task = loop.create_task(outcome(coro))
+        if which == 'lifetime0-data-10ms-later':
+            await asyncio.sleep(0.010)
+            await rig.inject(wire)
+        await asyncio.sleep(0.020)
+        if not task.done():
+            out.append((pfx + 'lifetime-0-still-pending', f'an Interest expressed with InterestLifetime 0 is still unfinished 20 ms later ({which})'))
+            task.cancel()
+        elif task.result()[0] != 'timeout':
+            out.append((pfx + 'lifetime-0-wrong-outcome', f'an Interest with InterestLifetime 0 finished with {task.result()[0]}, the statement '
+                                                          f'gives InterestTimeout at its deadline ({which})'))
+    else:
+        # the caller keeps the awaitable, does other work for longer than the lifetime and only then awaits it
+        await asyncio.sleep(0.025)
+        if which == 'awaited-late-data-came-in-time':
+            await rig.inject(wire)
+        await asyncio.sleep(0.035)
+        kind, detail = await outcome(coro)
+        want = 'data' if which == 'awaited-late-data-came-in-time' else 'timeout'
+        if kind != want or (kind == 'data' and bytes(detail) != DATAS[0][1]):
+            out.append((pfx + 'awaited-late-wrong-outcome', f'awaitable fetched {loop.now_ms() - t0} ms after express ({which}): outcome {kind}, '
+                                                            f'the statement gives {want}'))
+    await asyncio.sleep(FINAL_WAIT / 1000.0)
+    if rig.pit_entries():
+        out.append((pfx + 'table-residue-after-quiescence', f'{len(rig.pit_entries())} entries left in the pending-Interest table ({which})'))
+    if rig.loop_errors:
+        cls, site = rig.describe_loop_error(rig.loop_errors[0])
+        out.append((pfx + f'loop-exception-handler:{cls}@{site}', f'a background task ended with an unhandled {cls} in {site} ({which})'))
+
+
 def run_history(front: str, vdelay: int, history):
     """returns list of (key, what)"""
     soft = []
     hard = []
+    if history and history[0][0] == 'SCN':
+        async def go_s(rig):
+            await _scenario(rig, front, history[0][1], soft)
+        res = al.run_case(go_s, front)
+        if isinstance(res, dict) and res.get('deadlock'):
+            soft.append((f'C03:{front}:never-finishes', f'event loop ran dry in scenario {history[0][1]}'))
+        return soft
 
     async def go(rig):
         try:
@@ -586,6 +656,10 @@ def cases(tier, seed, shard):
     for i, c in enumerate(SEEDS):
         if i % n == k:
             yield c
+    for j, sc in enumerate(SCENARIOS):
+        for front in ('v1', 'v2'):
+            if (j + (front == 'v2')) % n == k:
+                yield front, 0, (('SCN', sc),)
     if tier == 'quick':
         ex_len, rnd = 4, 1500
     else:
